@@ -247,7 +247,7 @@ func classifyLogic(c Case) (bool, []string) {
 var specLogic = pbt.Spec[Case]{
 	Property: prop, Name: "logic",
 	Rule:     "eq/neq (2 args), not, and/or (1-5 args), if (2-3), unless, switch (1-4 pairs +- else), coalesce (1-5) over words, numbers, empty and (where the docs define it) whitespace-only values, via constant/group/key; oracle: the truthiness interpreter written from the docs, exact result where the docs name it. Every case is non-trivial; labels show branch taken",
-	Budget:   pbt.Budget{Quick: 60000, Thorough: 3000000},
+	Budget:   pbt.Budget{Quick: 20000, Thorough: 160000},
 	Gen:      genLogic,
 	Check:    checkLogic,
 	Classify: classifyLogic,
@@ -344,7 +344,7 @@ func classifyCompare(c Case) (bool, []string) {
 var specCompare = pbt.Spec[Case]{
 	Property: prop, Name: "compare",
 	Rule:     "lt/gt/lte/gte on two canonical integers with |v|<=2^53 (equal, adjacent +-1/+-2, independent), via constant/group/key; truthiness of the result must equal the integer relation; 1 in 12 non-numeric. Every case non-trivial; labels: equal, adjacent, mixed-sign",
-	Budget:   pbt.Budget{Quick: 40000, Thorough: 2000000},
+	Budget:   pbt.Budget{Quick: 12000, Thorough: 96000},
 	Gen:      genCompare,
 	Check:    checkCompare,
 	Classify: classifyCompare,
@@ -440,7 +440,7 @@ func classifyTyped(c Case) (bool, []string) { return true, baseLabels(c) }
 var specTyped = pbt.Spec[Case]{
 	Property: prop, Name: "isint-isnum",
 	Rule:     "isint/isnum of a canonical int64, a non-integral plain decimal, an exponent spelling, or a string with no numeric reading, via constant/group/key; isint truthy iff canonical int64 (exponent spellings not asserted), isnum truthy iff any of the three numeric classes. Every case non-trivial; labels show the class",
-	Budget:   pbt.Budget{Quick: 30000, Thorough: 1500000},
+	Budget:   pbt.Budget{Quick: 10000, Thorough: 80000},
 	Gen:      genTyped,
 	Check:    checkTyped,
 	Classify: classifyTyped,
